@@ -50,6 +50,7 @@ class DiskSeam:
         self.writes = 0
         self.crashed_on = None
         self.written = []  # paths (relative) this run opened for writing and was not killed on
+        self.sim = None  # set by the engine: file opens / closes are scheduling points of the thread level (real I/O releases the GIL)
 
     def __call__(self, file, mode="r", *a, **kw):
         path = str(file)
@@ -67,7 +68,36 @@ class DiskSeam:
                 if self.torn is None:
                     raise SimCrash(f"crash before write {self.writes} ({self.crashed_on})")
                 return _TornFile(self._open(file, mode, *a, **kw), path, self.torn, self.writes)
+            sim = self.sim
+            if sim is not None and sim.xpol.get("io_yield") and sim.thread_phase is not None:
+                f = self._open(file, mode, *a, **kw)
+                sim._yield_point("disk_open", "disk:open", extra="io")
+                return _YieldingFile(f, sim)
         return self._open(file, mode, *a, **kw)
+
+
+class _YieldingFile:
+    """a file opened for writing during a thread phase: closing it is a scheduling point too."""
+
+    def __init__(self, f, sim):
+        self._f, self._sim = f, sim
+
+    def __getattr__(self, name):
+        return getattr(self._f, name)
+
+    def __iter__(self):
+        return iter(self._f)
+
+    def __enter__(self):
+        return self
+
+    def close(self):
+        self._f.close()
+        self._sim._yield_point("disk_close", "disk:close", extra="io")
+
+    def __exit__(self, *exc):
+        self.close()
+        return False
 
 
 class _TornFile:
@@ -304,7 +334,11 @@ class Sim:
     """one simulated execution of the flow.  `mode`: "reference" (real sequential semantics) or "sim"."""
 
     def __init__(self, decider, clock, repo_quara_dir, max_yields=None, line_files=(), out_dir=None, probes=None, faults=None,
-                 proc_seed=0, pollution=None, mutators=None):
+                 proc_seed=0, pollution=None, mutators=None, xpol=None):
+        self.xpol = dict(xpol or {})  # extended policy: I/O scheduling points, race-directed pre-emption (see _note_write)
+        self.xrng = pyrandom.Random(self.xpol.get("salt", 0))
+        self.shared_write_sites = set()
+        self._probed = []
         self.d = decider
         self.clock = clock
         self.level = 0
@@ -541,8 +575,82 @@ class Sim:
             ev |= MON.events.LINE
         MON.set_events(TOOL_ID, ev)
         MON.restart_events()
+        if self.xpol.get("race_probe"):
+            self._install_write_probes()
+
+    # --- race-directed pre-emption ---------------------------------------------------------------
+    def _install_write_probes(self):
+        """attribute assignments on instances of quara's classes become observable during a thread phase: the classes at
+        the root of quara's hierarchies get a __setattr__ that reports (object, attribute) after the assignment."""
+        import enum
+
+        sim = self
+        classes = []
+        for name, mod in list(sys.modules.items()):
+            if not name.startswith("quara") or mod is None:
+                continue
+            f = getattr(mod, "__file__", None)
+            if not f or not f.startswith(self.quara_dir):
+                continue
+            for cls in list(vars(mod).values()):
+                if isinstance(cls, type) and cls.__module__ == name and not issubclass(cls, (BaseException, enum.Enum)) and cls not in classes:
+                    classes.append(cls)
+        cset = set(classes)
+        for cls in sorted(classes, key=lambda c: (c.__module__, c.__qualname__)):
+            if any(b in cset for b in cls.__mro__[1:]) or "__setattr__" in cls.__dict__ or "__slots__" in cls.__dict__:
+                continue  # inherits a probed root / has its own assignment protocol
+            orig = cls.__setattr__
+
+            def make(orig):
+                def __setattr__(obj, name, value):
+                    orig(obj, name, value)
+                    sim._note_write(obj, name)
+
+                return __setattr__
+
+            try:
+                cls.__setattr__ = make(orig)
+            except TypeError:
+                continue
+            self._probed.append(cls)
+
+    def _remove_write_probes(self):
+        for cls in self._probed:
+            try:
+                del cls.__setattr__
+            except (AttributeError, TypeError):
+                pass
+        self._probed = []
+
+    def _note_write(self, obj, name):
+        phase = self.thread_phase
+        if phase is None:
+            return
+        me = phase["by_ident"].get(threading.get_ident())
+        if me is None or phase["current"] is not me:
+            return
+        fr = sys._getframe(2)
+        code = fr.f_code
+        if code.co_name == "__init__" and fr.f_locals.get("self") is obj:
+            return  # an object under construction is not shared yet
+        key = (id(obj), name)
+        w = phase.setdefault("writes", {})
+        last = w.get(key)
+        w[key] = me.idx
+        if last is None:
+            phase.setdefault("write_refs", {})[id(obj)] = obj  # kept alive for the phase: ids stay unique
+            return
+        if last == me.idx:
+            return
+        # the attribute of this very object was last assigned by another thread: a write-write conflict, and the best
+        # place to take the processor away from the writer
+        site_key = f"{os.path.basename(code.co_filename)}:{code.co_qualname}:{fr.f_lineno}:w"
+        self.shared_write_sites.add(site_key)
+        self.bump(self.probes, "attribute_assigned_by_two_threads")
+        self._yield_point(code.co_name, site_key, extra="write_shared")
 
     def _monitor_off(self):
+        self._remove_write_probes()
         MON.set_events(TOOL_ID, 0)
         MON.register_callback(TOOL_ID, MON.events.PY_START, None)
         MON.register_callback(TOOL_ID, MON.events.LINE, None)
@@ -571,7 +679,7 @@ class Sim:
             return MON.DISABLE
         self._yield_point(code.co_name, f"{base}:{code.co_qualname}:{line}")
 
-    def _yield_point(self, site, site_key=None, hot=False):
+    def _yield_point(self, site, site_key=None, hot=False, extra=None):
         phase = self.thread_phase
         if phase is None:
             return
@@ -601,7 +709,20 @@ class Sim:
             pol = dec.get("_policy", {})
             do = False
             quiet = phase.get("quiet_until", 0) > y  # after a switch the thread switched to runs undisturbed for a while
-            if site_key is not None:
+            if extra is not None:
+                # scheduling points of the extended policy are decided by its own stream
+                xp = self.xpol
+                do = self.xrng.random() < (xp.get("io_rate", 0.3) if extra == "io" else xp.get("race_rate", 0.5))
+                if do and not quiet:
+                    others = [b.idx for b in phase["batons"] if not b.done and b is not me]
+                    if others:
+                        target = self.xrng.choice(others)
+                        dec["switches"].append([y, me.idx, target])
+                        self.bump(self.probes, "switch_at_disk_io" if extra == "io" else "switch_after_conflicting_attribute_write")
+                        if extra == "write_shared" and xp.get("race_quantum"):
+                            phase["quiet_until"] = y + xp["race_quantum"]
+                pol, do, hot = {}, False, False  # the regular policy is not consulted at these points
+            elif site_key is not None:
                 seen = phase.setdefault("site_seen", {})
                 c = seen.get(site_key, 0) + 1
                 seen[site_key] = c
